@@ -1,13 +1,13 @@
 SPECIFICATION Spec
 CONSTANTS
-  Devs <- DevBoth
+  Devs <- DevAll
   Ops <- OpsContent
   ByteStrings <- BytesQuick
   NumSeqs <- NumsQuick
   NewObjs <- MCNewObjs
   MaxDepth = 4
   Starts <- StartsContent
-  Allowed = {}
+  Allowed = {"content.sharedStream", "resources.nameCollision"}
   Emit = TRUE
   EmitMod = 100
   EmitModV = 10
